@@ -11,6 +11,7 @@ current state object.
 """
 import re
 
+from . import csmini
 from .common import Refuse, src, write_gen
 
 SOURCE = "kojen/statemachine_templates_cs_winlinmac/TEMPLATEInternals.cs"
@@ -55,16 +56,93 @@ def run():
             raise Refuse("PER_STATETRANSITION block: expected %r, found %r" % (pat, lines[i] if i < len(lines) else None))
         i += 1
     flat = re.sub(r"\s+", " ", text)
-    if "internal void Enter<StateT>() where StateT : new() { state = new StateT() as %sState; state.OnEntry(controller); }" % SM not in flat:
-        raise Refuse("Enter<StateT>() does not create the state object and call its OnEntry")
-    if "internal void Exit<StateT>() { state.OnExit(controller); }" not in flat:
-        raise Refuse("Exit<StateT>() does not call OnExit of the current state object")
     if "sm.state.Trigger<<<EVENTNAME>>>(controller, sm, this);" not in flat:
         raise Refuse("Dispatch does not call the current state object's Trigger<Event>")
     if ("internal virtual void Trigger<<<EVENTNAME>>>(I%sContext context, %sStateMachine sm, <<<EVENTNAME>>> data){}" % (SM, SM)) not in flat:
         raise Refuse("base class handler is not an empty virtual")
     body = "From KV Require Import Model.CsShape.\n\nDefinition cs_pgt : list ck := [%s].\n" % "; ".join(pgt)
-    return write_gen("CsTmpl.v", body, [SOURCE])
+    # helper methods of the state-machine class as IR (Model/CsShape.hstmt), non-threaded configuration (SM_THREAD_0)
+    enter = member_ir(text, r"internal void Enter<StateT>\(\) where StateT : new\(\)", "Enter<StateT>()")
+    exit_ = member_ir(text, r"internal void Exit<StateT>\(\)", "Exit<StateT>()")
+    reset = member_ir(text, r"internal void Reset\(\)", "Reset()")
+    smtext = src(SM_SOURCE).decode("utf-8")
+    ctor = member_ir(smtext, r"public %sStateMachine\(I%sContext context\)" % (SM, SM), "constructor")
+    trig = trigger_shape(smtext)
+    for nm, ir in (("cs_enter_ir", enter), ("cs_exit_ir", exit_), ("cs_reset_ir", reset), ("cs_ctor_ir", ctor)):
+        body += "Definition %s : list hstmt := [%s].\n" % (nm, "; ".join(ir))
+    body += "Definition cs_trigger_dispatches_synchronously : bool := %s.  (* Trigger<E>: state.Trigger<E>(controller, this, evt) when SM_THREAD_0 *)\n" % trig
+    return write_gen("CsTmpl.v", body, [SOURCE, SM_SOURCE])
+
+
+SM_SOURCE = "kojen/statemachine_templates_cs_winlinmac/TEMPLATEStateMachine.cs"
+
+
+def detag(t):
+    t = t.replace("<<<StateMachineThread=1>>>", "0")
+    t = re.sub(r"<<<(\w+)>>>", lambda m: "TAG" + m.group(1), t)
+    return t
+
+
+def member_text(text, header_rx, what):
+    """The text of one member (header + brace-matched body) of the preprocessed (SM_THREAD_0) template."""
+    clean, _ = csmini.preprocess("\n".join(l for l in text.split("\n") if not l.strip().startswith("#define")), {"SM_THREAD_0"})
+    ms = list(re.finditer(header_rx + r"\s*\{", clean))
+    if len(ms) != 1:
+        raise Refuse("%s: expected exactly one definition, found %d" % (what, len(ms)))
+    depth, i = 0, ms[0].end() - 1
+    for j in range(i, len(clean)):
+        depth += clean[j] == "{"
+        depth -= clean[j] == "}"
+        if depth == 0:
+            return clean[ms[0].start():j + 1]
+    raise Refuse("%s: unbalanced braces" % what)
+
+
+def to_ir(stmt, what):
+    k = stmt[0]
+    N = lambda n: ("name", n)   # noqa
+    if k == "block":
+        return [x for s_ in stmt[1] for x in to_ir(s_, what)]
+    if k == "return" and stmt[1] is None:
+        return ["HReturn"]
+    if k == "assign" and stmt[1] == N("state") and stmt[2] == ("as", ("new", "StateT"), "TAGSTATEMACHINENAMEState"):
+        return ["HNewState"]
+    if k == "assign" and stmt[1] == N("controller") and stmt[2] == N("context"):
+        return ["HSetController"]
+    if k == "assign" and stmt[1] == N("estate") and stmt[2] == ("member", N("ETAGSTATEMACHINENAMEState"), "TAGSTATE_0"):
+        return ["HSetEstateFirst"]
+    if k == "expr" and stmt[1] == ("call", N("state"), "OnEntry", None, [N("controller")]):
+        return ["HOnEntry"]
+    if k == "expr" and stmt[1] == ("call", N("state"), "OnExit", None, [N("controller")]):
+        return ["HOnExit"]
+    if k == "expr" and stmt[1] == ("call", ("this",), "Enter", "TAGSTATE_0", []):
+        return ["HEnterFirst"]
+    if k == "expr" and stmt[1] == ("call", ("this",), "Reset", None, []):
+        return ["HCallReset"]
+    if k == "if" and stmt[1] == ("is", N("state"), "StateT") and stmt[3] is None:
+        return ["(HIfStateIsT [%s])" % "; ".join(to_ir(stmt[2], what))]
+    raise Refuse("%s: statement outside the modelled shapes: %r" % (what, stmt))
+
+
+def member_ir(text, header_rx, what):
+    try:
+        m = csmini.parse_method_text(detag(member_text(text, header_rx, what)), "TAGSTATEMACHINENAMEStateMachine")
+    except csmini.CsError as e:
+        raise Refuse("%s: %s" % (what, e))
+    return to_ir(m.body, what)
+
+
+def trigger_shape(smtext):
+    """Trigger<Event> in the non-threaded configuration: creates the event, (members), and calls the current state object's handler."""
+    clean, _ = csmini.preprocess("\n".join(l for l in smtext.split("\n") if not l.strip().startswith("#define")), {"SM_THREAD_0"})
+    m = re.search(r"public void Trigger<<<EVENTNAME>>>\(<<<SIGNATURE>>>\)\s*\{(.*?)\n        \}", clean, re.S)
+    if not m:
+        raise Refuse("Trigger<Event> not found")
+    lines = [l.strip() for l in m.group(1).split("\n") if l.strip()]
+    want = ["<<<EVENTNAME>>> evt = new ();", "<<<EVENTMEMBERSLITEINSTANTIATE=evt>>>", "state.Trigger<<<EVENTNAME>>>(controller, this, evt);"]
+    if lines != want:
+        raise Refuse("Trigger<Event> (non-threaded) has an unknown shape: %r" % lines)
+    return "true"
 
 
 if __name__ == "__main__":
